@@ -2,11 +2,51 @@ import importlib.util, os
 _spec = importlib.util.spec_from_file_location("c17_go2lean", os.path.join(os.path.dirname(os.path.abspath(__file__)), "c17_go2lean.py"))
 _g2l = importlib.util.module_from_spec(_spec); _spec.loader.exec_module(_g2l)
 
+
+def _alone(check, line_in):
+    """impl + judge of ONE input line, each in a fresh process; returns the verdict line"""
+    import subprocess
+    gobin = os.path.join(check.rundir, "c17")
+    p = subprocess.run([gobin, "impl"], input=(line_in + "\n").encode(), stdout=subprocess.PIPE,
+                       stderr=subprocess.DEVNULL, timeout=120)
+    impl = p.stdout.decode(errors="replace").strip("\n")
+    if not impl:
+        impl = "%s => crash rc=%d |" % (line_in, p.returncode)
+    q = subprocess.run([check.exe(), "judge"], input=(impl.split("\n")[0] + "\n").encode(), stdout=subprocess.PIPE,
+                       stderr=subprocess.DEVNULL, timeout=120)
+    return q.stdout.decode(errors="replace").strip()
+
+
+def post(check, pairs, stats):
+    """Only when there are SPEC violations (never on a green run): the orchestrator records the SHORTEST failing line
+    as the replay.  A defect that depends on state left by EARLIER lines of the run (package-level counters, caches, a
+    pending error) makes short `enc` lines fail that pass when replayed alone, while a self-contained failing history
+    (`batch`, `cc`, an `enc` line whose own pre-calls set the state up) is among the failures.  Re-run the candidates
+    alone, shortest first, and let the first one that still fails be the shortest: the shorter, non-reproducing ones
+    stay counted as violations (their reason says so) but sort behind it."""
+    try:
+        spec = sorted([v for v in check.violations if v[0] == "SPEC"], key=lambda v: len(v[3]))
+        for n, v in enumerate(spec[:40]):
+            if not _alone(check, v[3].split(" => ")[0]).startswith("SPEC"):
+                continue
+            if n == 0:
+                return
+            demote = set(spec[:n])
+            pad = len(v[3]) + 1
+            note = " [fails only with the state left by earlier lines of this run; the replay is a self-contained failing line]"
+            check.violations = [(k, c, w + note, l.ljust(pad)) if (k, c, w, l) in demote else (k, c, w, l)
+                                for (k, c, w, l) in check.violations]
+            return
+    except Exception as e:   # never let the reporting aid change a verdict
+        print("C17 post hook: %r" % e)
+
+
 T = "GeomV.C17."
 CFG = {
     "id": "C17",
     "lean_modules": ["GeomV.C17.Proofs", "GeomV.C17.Tie", "GeomV.C17.ProofsNum", "GeomV.C17.ProofsFmt", "GeomV.C17.ProofsFmtEx"],
     "pregen": _g2l.pregen,
+    "post": post,
     "exe": "geomv_c17",
     "go_cmd": "c17",
     "stages": ["go:gen", "go:impl", "lean:judge"],
